@@ -194,6 +194,7 @@ func c06RunInBubble(t *testing.T, c c06Case, res *vfResult) {
 		return h
 	}
 	pubNo := 0
+	modelLastPub := map[string]int64{} // topic -> virtual time of the last publication that went through the fanout path
 	dataOf := func(k int) string { return fmt.Sprintf("payload-%d", k) }
 	unwantedTTL := map[[2]string]int{} // (peer, data) -> heartbeats left
 	seq := uint64(5000)
@@ -505,6 +506,11 @@ func c06RunInBubble(t *testing.T, c c06Case, res *vfResult) {
 					for tn, t := range n.gs.lastpub {
 						lastpub[tn] = t
 					}
+					// the time of the last publication is the harness's own record wherever it has one: the statement
+					// says "keeps being published to", not "since the set was created"
+					for tn, t := range modelLastPub {
+						lastpub[tn] = t
+					}
 					for tn, m := range n.gs.fanout {
 						f := &fan{members: map[peer.ID]bool{}, eligibleNew: map[peer.ID]bool{}}
 						for p := range m {
@@ -575,6 +581,7 @@ func c06RunInBubble(t *testing.T, c c06Case, res *vfResult) {
 			pubNo++
 			data := dataOf(pubNo)
 			s := snapshot(topic, data)
+			pubAt := time.Now().UnixNano()
 			var po []PubOpt
 			if op.Local {
 				po = append(po, WithLocalPublication(true))
@@ -608,6 +615,9 @@ func c06RunInBubble(t *testing.T, c c06Case, res *vfResult) {
 			judge(step, s, sent, orig, data, "", n.h.id, true, op.Local)
 			if op.Local {
 				res.label("local-only")
+			}
+			if c.Router == "gossipsub" && !op.Local && !c.Flood && !s.hasMesh && len(s.topicP) > 0 {
+				modelLastPub[topic] = pubAt // a publication through the fanout path
 			}
 		case "rpub":
 			// only messages for a topic the node is subscribed to are processed
